@@ -404,7 +404,6 @@ package queue
 //@   ensures [C14:every_selected_allowed_message_changed] forall j int :: 0 <= j && j < len(req.IDs) && trim(req.IDs[j]) != "" && trim(req.IDs[j]) in s.items && old(requeueable(s.items[trim(req.IDs[j])].State)) ==> s.items[trim(req.IDs[j])].State == StateQueued
 //@   ensures [C14:count_equals_changes] result0.Requeued == card(setof(k string :: k in s.items && s.items[k].State != old(s.items[k].State))) && result0.Matched == result0.Requeued
 //@   ensures [no_error] result1 == nil
-//@   ensures [C05:short_batch_means_nothing_ready_left] let now := ite(req.Now != 0, req.Now, storeNow) :: len(result0.Items) < min(max(req.Batch, 1), 100) && req.MaxWait <= 0 ==> forall id string :: id in s.items ==> !dueFor(s.items[id], req.Route, req.Target, now)
 
 //@ func (*MemoryStore).RequeueDead
 //@   requires s != nil
@@ -426,7 +425,6 @@ package queue
 //@   ensures [C14:every_selected_allowed_message_changed] forall j int :: 0 <= j && j < len(req.IDs) && trim(req.IDs[j]) != "" && trim(req.IDs[j]) in s.items && old(s.items[trim(req.IDs[j])].State == StateDead) ==> s.items[trim(req.IDs[j])].State == StateQueued
 //@   ensures [C14:count_equals_changes] result0.Requeued == card(setof(k string :: k in s.items && s.items[k].State != old(s.items[k].State)))
 //@   ensures [no_error] result1 == nil
-//@   ensures [C05:short_batch_means_nothing_ready_left] let now := ite(req.Now != 0, req.Now, storeNow) :: len(result0.Items) < min(max(req.Batch, 1), 100) && req.MaxWait <= 0 ==> forall id string :: id in s.items ==> !dueFor(s.items[id], req.Route, req.Target, now)
 
 //@ func (*MemoryStore).DeleteDead
 //@   requires s != nil
@@ -446,7 +444,6 @@ package queue
 //@   ensures [C14:every_selected_dead_removed] forall j int :: 0 <= j && j < len(req.IDs) && trim(req.IDs[j]) != "" && old(trim(req.IDs[j]) in s.items) && old(s.items[trim(req.IDs[j])].State) == StateDead ==> !(trim(req.IDs[j]) in s.items)
 //@   ensures [C14:count_equals_changes] result0.Deleted == card(setof(k string :: old(k in s.items) && !(k in s.items)))
 //@   ensures [no_error] result1 == nil
-//@   ensures [C05:short_batch_means_nothing_ready_left] let now := ite(req.Now != 0, req.Now, storeNow) :: len(result0.Items) < min(max(req.Batch, 1), 100) && req.MaxWait <= 0 ==> forall id string :: id in s.items ==> !dueFor(s.items[id], req.Route, req.Target, now)
 
 // ---- C14: by-filter selection ----
 
@@ -506,7 +503,6 @@ package queue
 //@   ensures [C14:counts_equal_changes] !req.PreviewOnly ==> result0.Canceled == card(setof(id string :: id in s.items && s.items[id].State != old(s.items[id].State))) && result0.Matched == result0.Canceled
 //@   ensures [C14:matched_within_limit] result0.Matched <= effLimit(req.Limit)
 //@   ensures [no_error] result1 == nil
-//@   ensures [C05:short_batch_means_nothing_ready_left] let now := ite(req.Now != 0, req.Now, storeNow) :: len(result0.Items) < min(max(req.Batch, 1), 100) && req.MaxWait <= 0 ==> forall id string :: id in s.items ==> !dueFor(s.items[id], req.Route, req.Target, now)
 
 //@ func (*MemoryStore).RequeueMessagesByFilter
 //@   requires s != nil
@@ -531,7 +527,6 @@ package queue
 //@   ensures [C14:counts_equal_changes] !req.PreviewOnly ==> result0.Requeued == card(setof(id string :: id in s.items && s.items[id].State != old(s.items[id].State))) && result0.Matched == result0.Requeued
 //@   ensures [C14:matched_within_limit] result0.Matched <= effLimit(req.Limit)
 //@   ensures [no_error] result1 == nil
-//@   ensures [C05:short_batch_means_nothing_ready_left] let now := ite(req.Now != 0, req.Now, storeNow) :: len(result0.Items) < min(max(req.Batch, 1), 100) && req.MaxWait <= 0 ==> forall id string :: id in s.items ==> !dueFor(s.items[id], req.Route, req.Target, now)
 
 //@ spec
 //@ pred resumable(st State) := st == StateCanceled
@@ -559,4 +554,3 @@ package queue
 //@   ensures [C14:counts_equal_changes] !req.PreviewOnly ==> result0.Resumed == card(setof(id string :: id in s.items && s.items[id].State != old(s.items[id].State))) && result0.Matched == result0.Resumed
 //@   ensures [C14:matched_within_limit] result0.Matched <= effLimit(req.Limit)
 //@   ensures [no_error] result1 == nil
-//@   ensures [C05:short_batch_means_nothing_ready_left] let now := ite(req.Now != 0, req.Now, storeNow) :: len(result0.Items) < min(max(req.Batch, 1), 100) && req.MaxWait <= 0 ==> forall id string :: id in s.items ==> !dueFor(s.items[id], req.Route, req.Target, now)
